@@ -47,6 +47,32 @@ def main():
             res["differs"] = (res["with_change"]["rc"], res["with_change"]["stdout"]) != (res["without_change"]["rc"], res["without_change"]["stdout"])
             out["_demo"] = res
             print("demo differs:", res["differs"])
+        demo_sh = os.path.join(sd, "demo.sh")
+        if os.path.exists(demo_sh):
+            # a shell demonstration: `sh demo.sh <mscript binary>` or `sh demo.sh <repo checkout> <mscript binary>`
+            subprocess.run(["cargo", "build", "--offline", "-q"], cwd=wt, env=tenv, capture_output=True)
+            two = "$2" in open(demo_sh).read() or "${2" in open(demo_sh).read()
+            res = {}
+            for label, binary, tree in (("with_change", os.path.join(cache, "t-target", "debug", "mscript"), wt), ("without_change", None, "/repo")):
+                if binary is None:
+                    sys.path.insert(0, "/verif")
+                    from vlib import core
+                    binary = core.build_repo()
+                d = "/tmp/seeddemo-" + tag + "-sh-" + label
+                shutil.copytree(sd, d, ignore=shutil.ignore_patterns("check_result.json", "meta.json"))
+                try:
+                    rr = subprocess.run(["sh", "demo.sh"] + ([tree, binary] if two else [binary]), cwd=d, capture_output=True, text=True, timeout=900,
+                                        env=dict(tenv, CARGO_TARGET_DIR=os.path.join(cache, "demo-target-" + label)))
+                    res[label] = {"rc": rr.returncode, "stdout": rr.stdout[-1500:], "stderr_tail": rr.stderr[-300:]}
+                except subprocess.TimeoutExpired:
+                    res[label] = {"rc": 124, "stdout": "", "stderr_tail": "timeout"}
+                shutil.rmtree(d, ignore_errors=True)
+            def norm(x):
+                return (x["rc"], x["stdout"].replace(os.path.join(cache, "t-target", "debug", "mscript"), "MSCRIPT").replace(wt, "TREE"))
+            res["differs"] = norm(res["with_change"])[0] != res["without_change"]["rc"] or \
+                res["with_change"]["stdout"].replace(wt, "TREE").replace(cache, "CACHE") != res["without_change"]["stdout"].replace("/repo", "TREE").replace("/verif/.cache", "CACHE")
+            out["_demo_sh"] = res
+            print("demo.sh differs:", res["differs"])
         for p in props:
             t = time.time()
             r = subprocess.run(["./verify", "check", p, "--tier", "quick"], cwd="/verif", env=env, capture_output=True, text=True)
